@@ -394,6 +394,11 @@ func (l c02) Exec(env *core.Env) *core.Result {
 				res.Violate("C02/unexpected-validation-sequence", key, "validations reported %v, the level and plugin capabilities call for a prefix of %v", got, expected)
 				continue
 			}
+			// a verification that was accepted went through every validation the level and the plugin's
+			// capabilities call for: none may be silently left out
+			if verr == nil && len(got) < len(expected) {
+				res.Violate("C02/accepted-without-performing-a-validation", key, "verification succeeded with validations %v reported; the level and plugin capabilities call for %v", got, expected)
+			}
 			// (a plugin's identity verdict is written into the authenticity result after the later native validations ran)
 			pluginIdentityVerdict := sp != nil && len(sp.Requests) > 0 && asked["identity"] && w["vIdentity"] == 1
 			if enforcedFailure >= 0 && len(results) != enforcedFailure+1 && !(pluginIdentityVerdict && got[enforcedFailure] == "authenticity") {
